@@ -240,3 +240,13 @@ ADD6 = {
 for _k, (_t, _x) in ADD6.items():
     _tech, _text, _note = CLAIMED[_k]
     CLAIMED[_k] = (_tech + _t, _text + _x, _note)
+
+ADD7 = {
+ "C03": ("; provenance rule for reflect.Value.Interface on struct-field values (exported-only binding)",
+         " Also decides that a struct field read through reflection was bound under an exported-field test."),
+ "C07": ("; lookahead rule: the scanner's line advance is deferred past the put-back byte wherever positions are copied after a token read",
+         " Also decides that a token followed by a line break keeps its own line."),
+}
+for _k, (_t, _x) in ADD7.items():
+    _tech, _text, _note = CLAIMED[_k]
+    CLAIMED[_k] = (_tech + _t, _text + _x, _note)
